@@ -482,14 +482,18 @@ impl World {
         }
         match self.s[i].an.push(&frame) {
             Ok(info) => {
-                if info.ndisc && depth < 4 {
+                if info.ndisc {
                     // neighbour discovery flows immediately, in order, without faults
                     ctx.note(|| format!("    [{}] NDISC frame ({} octets) -> delivered at once", i, frame.len()));
                     let o = 1 - i;
                     self.inject(o, frame, info);
-                    let out = self.poll_node(o, None);
-                    for f in out {
-                        self.handle_tx(o, f, ctx, depth + 1)?;
+                    if depth == 0 {
+                        // the answer is queued at the asking node, which is polled again by its drain loop
+                        // (never poll a node while the frames of its previous poll are still being analysed)
+                        let out = self.poll_node(o, None);
+                        for f in out {
+                            self.handle_tx(o, f, ctx, depth + 1)?;
+                        }
                     }
                 } else {
                     self.s[i].outbox.push((frame, info));
@@ -617,6 +621,7 @@ impl World {
                         match self.s[i].an.quiescent_check() {
                             Ok(()) => break,
                             Err(f) => {
+                                if std::env::var("C20_DEBUG").is_ok() { eprintln!("QC {}", f.key); }
                                 ctx.report(f)?;
                                 self.tainted = true;
                             }
@@ -633,15 +638,19 @@ impl World {
                 Some(t) => self.now_ms = t.min(self.now_ms + 5_000),
                 None => {
                     if idle_rounds > 2 {
+                        ctx.label("pump-end:no-deadline");
                         return Ok(false);
                     }
                     self.now_ms += 1;
                 }
             }
             if self.now_ms > horizon_ms {
+                ctx.label("pump-end:horizon");
                 return Ok(false);
             }
         }
+        ctx.label("pump-end:max-rounds");
+        if std::env::var("C20_DEBUG").is_ok() { return Err(Fail::new("debug:max-rounds", "x")); }
         Ok(false)
     }
 }
